@@ -1,12 +1,16 @@
 import Driver.Plugin
 import Driver.Plug.Sched
 import Driver.Plug.InlineDepth
+import Driver.Plug.ConVecAlloc
+import Driver.Plug.ConVecGrow
 /-! The list of plug-in models (one import and one entry per model). -/
 namespace Driver
 
 def plugins : List (String × Plug) := [
   ("sched", Driver.PlugSched.plug),
-  ("inlinedepth", Driver.PlugInlineDepth.plug)
+  ("inlinedepth", Driver.PlugInlineDepth.plug),
+  ("cvalloc", Driver.PlugConVecAlloc.plug),
+  ("cvgrow", Driver.PlugConVecGrow.plug)
 ]
 
 end Driver
